@@ -23,9 +23,9 @@ ENGINES = [
     {"name": "E4 verifier", "path": "coq/Verifier coq/VM/StackBound*.v coq/Exc/BuiltinFlags.v coq/Src/Tailrec.v coq/Gen/Opcodes.v harness/vm harness/ocaml/verifier harness/ocaml/stackbound harness/ocaml/tailrec harness/c03 harness/c13 harness/c14 lib/vmcheck.py",
      "serves_properties": ["C07", "C03", "C13", "C14", "C09", "C01"],
      "kind_free_text": "stack-shape machine + proved certificate checker (all static paths), unwinding, root-slot, tail-call and write-plan theorems; extracted checker on every compiled module, lock-step of the machine on real register traces incl. gc_stack tags (hooks H1, H3); opcode numbering regenerated from back/bytecode.h"},
-    {"name": "E5 source", "path": "coq/Src coq/VM/ValueVM.v coq/VM/ValueVM3.v harness/ocaml/eval harness/ocaml/tc harness/ocaml/compile harness/ocaml/compile3 checks/parts/evaldiff.py checks/parts/compiletie.py",
+    {"name": "E5 source", "path": "coq/Src coq/VM/ValueVM.v coq/VM/ValueVM3.v coq/VM/ValueVM4.v harness/ocaml/eval harness/ocaml/tc harness/ocaml/compile harness/ocaml/compile3 harness/ocaml/compile4 checks/parts/evaldiff.py checks/parts/compiletie.py",
      "serves_properties": ["C02", "C08", "C06", "C01", "C03", "C13"],
-     "kind_free_text": "reference evaluator, model typechecker, type safety, compile-correctness for the fragments F1-F3 on value-level VM models; type-directed program generator, differential real compiler+VM vs evaluator, code-equality tie of the compiler model with front/emit.c"},
+     "kind_free_text": "reference evaluator, model typechecker, type safety, compile-correctness for the fragments F1-F3, F5 (catch clauses) and, partially, F4 (closures) on value-level VM models; type-directed program generator, differential real compiler+VM vs evaluator, code-equality tie of the compiler model with front/emit.c"},
     {"name": "E6 front/mem", "path": "coq/Front coq/Mem coq/Gen/FrontConsts.v harness/front harness/mem harness/ocaml/front harness/ocaml/mem",
      "serves_properties": ["C05", "C16"],
      "kind_free_text": "proved logic slices (print_msg buffer arithmetic over regenerated constants, use stack, outcome classifier, allocation-trace monitor, gc_delete); malformed-input search under ASan/UBSan and malloc-event traces from a --wrap shim judged by the extracted monitor"},
@@ -43,14 +43,14 @@ CHECKS = {
         note=TB + "; byte-level memory safety of the C handlers is observed (ASan/UBSan/asserts), not proved: no C semantics (VST/CompCert) in this sandbox; the check has no model run of its own, its tie is the crash oracle"),
     "C02": dict(
         engine="E5 source",
-        technique="Coq reference evaluator (Src/Eval.v) with machine-checked theorems for every language rule the property names (operand / argument order, short-circuit, binding shares cells, assignment copies payloads, for-in loops, fuel independence) + compiler-correctness theorems for the fragments F1-F3 on value-level VM models; differential: real compiler+VM vs the extracted evaluator on type-directed generated programs; instruction-by-instruction tie of the compiler model with front/emit.c",
-        text="proof (partial): Properties_C02.v (33 theorems over all expressions, environments and stores of the evaluator: eval_fuel_mono ... run_program_deterministic_in_fuel, binop_left_to_right, call_args_right_to_left, eval_args_rtl, and/or_short_circuits, binding_never_copies, assign_copies_payload, fresh_cell_for_arith, and the for-in rules of Src/EvalForIn.v: forin_range_bounds_once, forin_range_values, forin_range_iteration(_down), forin_done_value, forin_body_raises, forin_arr_iterable_once) and Properties_C02b.v (compile correctness, all proved in full, no _partial: compile_expr_correct, compile_func_correct_F, compile_program_correct_F1/_F2 on VM/ValueVM.v; compile_expr_correct_frames and compile_program_correct_F3 on VM/ValueVM3.v — whole module image, calls of top-level functions, recursion, self tail calls, faults leaving callees through RETHROW). Tied, not proved: the compiler model equals front/emit.c's code (level 2: region of main; level 3: whole code array, exception table, entry and function addresses) and the value-level VMs equal the real VM (result, prints, exception, peak sp, instruction count) on generated fragment programs. Outside F3 (closures, nested functions, catch clauses, arrays, records, for-in) the evaluator is a model validated by the differential run (3400 quick / 54000 thorough programs over 12 profiles, each also with a small heap), not a theorem about the compiler",
+        technique="Coq reference evaluator (Src/Eval.v) with machine-checked theorems for every language rule the property names (operand / argument order, short-circuit, binding shares cells, assignment copies payloads, for-in loops, fuel independence) + compiler-correctness theorems for the fragments F1-F3, F5 (catch clauses) and F4 (closures, partial) on value-level VM models; differential: real compiler+VM vs the extracted evaluator on type-directed generated programs; instruction-by-instruction tie of the compiler model with front/emit.c",
+        text="proof (partial): Properties_C02.v (33 theorems over all expressions, environments and stores of the evaluator: eval_fuel_mono ... run_program_deterministic_in_fuel, binop_left_to_right, call_args_right_to_left, eval_args_rtl, and/or_short_circuits, binding_never_copies, assign_copies_payload, fresh_cell_for_arith, and the for-in rules of Src/EvalForIn.v: forin_range_bounds_once, forin_range_values, forin_range_iteration(_down), forin_done_value, forin_body_raises, forin_arr_iterable_once); Properties_C02b.v (8, all proved in full: compile_expr_correct, compile_func_correct_F, compile_program_correct_F1/_F2 on VM/ValueVM.v; compile_expr_correct_frames, compile_program_correct_F3 — whole module image, calls of top-level functions, recursion, self tail calls — and compile_program_correct_F5 — catch clauses — on VM/ValueVM3.v); Properties_C02c.v (15): compile_program_correct_F4 on VM/ValueVM4.v / Src/Compile4.v — whole programs with nested functions and closures (sibling runs, captured cells at any depth, function values bound, passed, stored, returned and called, by-value copies of function objects, tail self calls, catch clauses), PARTIAL: for the fragment prog_in_P 5 p || prog_in_P 6 p and the side conditions stated in that file (level 5 = compile_program_correct_F4_partial: any assignment, no copies; level 6: copies, assignment only to int vars; the levels are not merged — Example exbad shows the merged statement is false of the untyped evaluator) — plus closure_run, sibling_run, the machine-side C08 facts and the simulation cases. Tied, not proved: the compiler models equal front/emit.c's code (level 2: region of main; levels 3, 5, 4: whole code array, exception table, entry and function addresses) and the value-level VMs equal the real VM (result, prints, exception, peak sp, instruction count) on generated fragment programs. Outside the proved fragments (for-in, arrays, records, non-int data) the evaluator is a model validated by the differential run (3400 quick / 54000 thorough programs over 12 profiles, each also with a small heap), not a theorem about the compiler",
         ref="DESIGN.md §5 C02, §0",
-        note=TB + "; constructs outside Src/Syntax.v (strings, floats, long, enums/match, tuples, multi-dimensional arrays, slices, comprehensions, modules) are covered by the other engines' probe families, not by this evaluator; Src/Eval.v has no tail-call elimination (functions with a tail self call get no catch clauses in the generator); ValueVM3's stack is unbounded, a bound in terms of call depth is not proved (peaks are compared in the tie)"),
+        note=TB + "; constructs outside Src/Syntax.v (strings, floats, long, enums/match, tuples, multi-dimensional arrays, slices, comprehensions, modules) are covered by the other engines' probe families, not by this evaluator; Src/Eval.v has no tail-call elimination (functions with a tail self call get no catch clauses in the generator); the stacks of the value-level VMs are unbounded, a bound in terms of call depth is not proved (peaks are compared in the tie)"),
     "C03": dict(
         engine="E4 verifier + E5 source + E3 arith/index",
         technique="Coq proofs: exception-table binary search spec and its link to the verifier's lookup; fault delivery on the shape machine for all paths of verified code; clause selection theorems on the reference evaluator; decision logic of built-in calls over the FP status word; fault-program family with closed-form oracle, flag rows of the real libvm_execute_build_in evaluated by coqc, lock-step on real traces",
-        text="proof: Properties_C03.v (28) — search_spec, handler_is_search; for every module accepted by the certificate checker and every reachable state (any call depth, any number of frames under construction): fault_lands_in_own_handler, handler_link_increases, handler_chain_finite, clear_stack_restores_frame, rethrow_pops_partial_frame, rethrow_returns_to_caller, every_fault_has_a_handler, unhandled_only_at_top_level, unhandled_reached_only_at_top; on Src/Eval.v: fault_result_unused_* (10), first_matching_clause, clause_value_is_call_result, no_clause_propagates, clause_exception_goes_to_later_clauses, catch_all_takes_the_rest, unhandled_at_top. Properties_C03b.v (7, Exc/BuiltinFlags.v) — builtin_outcome_is_classification_of_own_flags, builtin_outcome_independent_of_history, builtin_that_does_not_fail_raises_nothing, builtin_exception_is_an_own_flag. Tie: direct-call correspondence with exctab.c; ~3400 flag rows of the real built-in dispatcher checked by coqc (rows_ok); the verifier + emitter-layout check + lock-step on every corpus and family module; generated fault programs (13 fault kinds x argument position x 0..3 frames under construction x clause level/order x loops/closures/recursion/top level/FFI records, and operation history x built-in) compared with a closed-form oracle; block-boundary test",
+        text="proof: Properties_C03.v (28) — search_spec, handler_is_search; for every module accepted by the certificate checker and every reachable state (any call depth, any number of frames under construction): fault_lands_in_own_handler, handler_link_increases, handler_chain_finite, clear_stack_restores_frame, rethrow_pops_partial_frame, rethrow_returns_to_caller, every_fault_has_a_handler, unhandled_only_at_top_level, unhandled_reached_only_at_top; on Src/Eval.v: fault_result_unused_* (10), first_matching_clause, clause_value_is_call_result, no_clause_propagates, clause_exception_goes_to_later_clauses, catch_all_takes_the_rest, unhandled_at_top. Properties_C03b.v (7, Exc/BuiltinFlags.v) — builtin_outcome_is_classification_of_own_flags, builtin_outcome_independent_of_history, builtin_that_does_not_fail_raises_nothing, builtin_exception_is_an_own_flag. Tie: direct-call correspondence with exctab.c; ~3400 flag rows of the real built-in dispatcher checked by coqc (rows_ok); the verifier + emitter-layout check + lock-step on every corpus and family module; generated fault programs (13 fault kinds x argument position x 0..3 frames under construction x clause level/order x loops/closures/recursion/top level/FFI records, and operation history x built-in) compared with a closed-form oracle; completeness over fault sites: harness/c03/faultsites.py enumerates every site of back/*.c that sets VM_EXCEPTION (a site assigning no exception is a violation) and SITE_PROBES reach them with stale, non-matching and missing clauses; block-boundary test",
         ref="DESIGN.md §5 C03",
         note=TB + "; which exception number a clause tests is data (INT; PUSH_EXCEPT; EQ; JUMPZ): decided at source level and by the generated programs, the shape machine only carries control; values of libm built-ins are compared with libm called directly, not modelled"),
     "C04": dict(
@@ -62,55 +62,55 @@ CHECKS = {
     "C05": dict(
         engine="E6 front/mem",
         technique="Coq proofs of the logic slices an executable model can carry (print_msg buffer arithmetic over constants regenerated from the tree, the `use` include-stack state machine, a verified outcome classifier); malformed-input search (token mutation, truncation, grammar-driven syntax errors generated from the tree's parser.y, injected faults, raw bytes, long/deep inputs, use graphs) under ASan/UBSan with the extracted classifier as oracle",
-        text="proof (partial by nature): Properties_C05.v (8) — msg_within_buffer_spec, msg_write_safe_criterion, msg_write_within_buffer_verdict, msg_write_within_buffer (all prefix/body lengths, over MAX_MSG_SIZE and the size expressions regenerated from back/utils.c on every run), msg_unbounded_body_limit_refuted (the arithmetic before fix 86d534e, kept as discriminating witness), use_depth_bounded, outcome_classifier_total, outcome_classifier_correct. Crash-, hang- and memory-safety of the generated scanner/parser and of the typechecker on arbitrary bytes cannot be stated over an executable model in this sandbox and are observed on ~3.8x10^4 inputs per quick run (incl. ~1.16x10^4 grammar-driven syntax errors), never presented as proof",
+        text="proof (partial by nature): Properties_C05.v (8) — msg_within_buffer_spec, msg_write_safe_criterion, msg_write_within_buffer_verdict, msg_write_within_buffer (all prefix/body lengths, over MAX_MSG_SIZE and the size expressions regenerated from back/utils.c on every run), msg_unbounded_body_limit_refuted (the arithmetic before fix 86d534e, kept as discriminating witness), use_depth_bounded, outcome_classifier_total, outcome_classifier_correct. Crash-, hang- and memory-safety of the generated scanner/parser and of the typechecker on arbitrary bytes cannot be stated over an executable model in this sandbox and are observed on ~3.8x10^4 inputs per quick run (incl. ~1.16x10^4 grammar-driven syntax errors, right-nested constructs at depths 100000 / 250000 on the plain build, capture / enum-record forms with an expected verdict, extern declarations over records, NEVER_PATH values with bad components), never presented as proof",
         ref="DESIGN.md §5 C05, §11",
         note=TB + "; gen/gen_frontconsts.py reads back/utils.c and front/scanner.l as text (a spelling it cannot translate is reported as a broken tie); stack overflow counts only if the plain build with an 8 MiB stack dies too"),
     "C06": dict(
         engine="E5 source",
         technique="Coq model typechecker for the core AST, proved sound AND complete w.r.t. a declarative typing judgment; every single-fault mutation operator of the rule catalogue proved rejected at any nesting depth; real compiler vs model on generated well-typed programs and all their mutants (accept/reject and diagnostic line); four text-level families with python oracles for constructs outside the core AST",
-        text="proof: Properties_C06.v (9) — typecheck_sound, typecheck_complete, mutant_rejected (every well-typed P, every single-fault mutant of the catalogue at any depth: operands, branches, loop bodies, arguments, nested functions, lambdas, catch clauses), mutant_rejected_at_depth, assign_to_const_rejected, match_check_sound, match_omitting_enumerator_rejected, unknown_exception_rejected, unknown_attribute_rejected about coq/Src/Typecheck.v / TypecheckMatch.v; tie: ~4x10^4 generated mutants per quick run through the tree's compiler (each rejected with a diagnostic on the mutated node's lines; each base program accepted); text families: several matches per unit, binder-scope grid, one-place type differences in nested function types, offence x 48 contexts x sink grid; corpus/C06 and the tree's *.nev.err samples",
+        text="proof: Properties_C06.v (9) — typecheck_sound, typecheck_complete, mutant_rejected (every well-typed P, every single-fault mutant of the catalogue at any depth: operands, branches, loop bodies, arguments, nested functions, lambdas, catch clauses), mutant_rejected_at_depth, assign_to_const_rejected, match_check_sound, match_omitting_enumerator_rejected, unknown_exception_rejected, unknown_attribute_rejected about coq/Src/Typecheck.v / TypecheckMatch.v; tie: ~4x10^4 generated mutants per quick run through the tree's compiler (each rejected with a diagnostic on the mutated node's lines; each base program accepted); text families: several matches per unit, binder-scope grid, one-place type differences in nested function types, offence x 48 contexts x sink grid, alias / call-syntax / array-literal forms, same-named types of different modules, operators on arrays, arms / branches of different types; corpus/C06 and the tree's *.nev.err samples",
         ref="DESIGN.md §5 C06",
         note=TB + "; the diagnostic line is not in the model (the AST carries no lines): checked on the real compiler only; rules outside the core AST of Src/Syntax.v are exercised by the text families and by C01's ill-typed acceptance matrix, not by a theorem"),
     "C07": dict(
         engine="E4 verifier + E7 ffi/hash",
         technique="Coq proof of a bytecode verifier (certificate checker) sound for a stack-shape machine along all paths, incl. direct-call arity; proved reference checks; extracted checker run on every compiled module; lock-step of the machine on real register traces and gc_stack tags; string-table refinement",
-        text="proof: Properties_C07.v — verify_sound (all observation sequences = all static paths incl. exceptional edges and dynamic call targets), verify_depth, references_exist; Properties_C07b.v — direct_call_arity (a CALL directly after ID_FUNC_ADDR g finds exactly np g argument slots on every path); Hash/StrTabStatements.v (registered as obligations) — strtab_refines_list, strtab_entry_resize_preserves. Per program the extracted checker validates the module emitted by the tree's compiler (translation validation with a proved validator; a rejected module is searched for a concrete crashing static path); the machine's effect table is tied to back/vmexec.c by lock-step on real traces (hook H1: every step a successor, slot kinds = real tags), the opcode numbering is regenerated from back/bytecode.h, per-function metadata comes from hook H3",
+        text="proof: Properties_C07.v — verify_sound (all observation sequences = all static paths incl. exceptional edges and dynamic call targets), verify_depth, references_exist (a COPYGLOB self reference may target another emission of the running function: Refs.self_or_copy, for-in range bodies are emitted twice); Properties_C07b.v — direct_call_arity (a CALL directly after ID_FUNC_ADDR g finds exactly np g argument slots on every path); Hash/StrTabStatements.v (registered as obligations) — strtab_refines_list, strtab_entry_resize_preserves. Per program the extracted checker validates the module emitted by the tree's compiler (translation validation with a proved validator; a rejected module is searched for a concrete crashing static path); the machine's effect table is tied to back/vmexec.c by lock-step on real traces (hook H1: every step a successor, slot kinds = real tags), the opcode numbering is regenerated from back/bytecode.h, per-function metadata comes from hook H3",
         ref="DESIGN.md §5 C07",
         note=TB + "; operand kinds flowing through locals/calls are outside the untyped bytecode (C01b/C02); a dynamic callee of another arity is outcome ArityStuck of the model (the typechecker's obligation), observed by the lock-step"),
     "C08": dict(
         engine="E5 source",
         technique="Coq proofs on the reference evaluator: invariance under every injective renaming of all names, true alpha-conversion of a let/var binder to a fresh name, closures capture the environment's cells, distinct activations and distinct for-in iterations get distinct cells, store monotonicity; differential: original vs uniquified vs injectively renamed programs on the real compiler, and vs the evaluator, on shadowing/closure/alias profiles, also with small heaps",
-        text="proof: Properties_C08.v (24) — rename_invariance, eval_rename, alpha_fresh_binder, alpha_fresh_binder_in_block, eval_subst_rel, res_rel_observable, closure_captures_cells, func_run_captures_env, func_run_names, closure_var_denotes_captured_cell, distinct_activations_distinct_cells, store_monotone(+_items,_handlers), cells_only_grow, cells_keep_index, objects_keep_index, and for for-in loops forin_range_step_fresh_cell, forin_range_cells_distinct, forin_closure_reads_own_cell, forin_arr_step_shares_cell — all about Src/Eval.v; tie: generated programs with the same name bound at every binder kind in nested scopes, escaping and returned closures, counters shared between closures, closures created in loops: the real compiler must give the same outcome on the original, the uniquified and an injectively renamed variant, and equal to the evaluator, with heaps of 20000, 150 and 400 cells",
+        text="proof: Properties_C08.v (24) — rename_invariance, eval_rename, alpha_fresh_binder, alpha_fresh_binder_in_block, eval_subst_rel, res_rel_observable, closure_captures_cells, func_run_captures_env, func_run_names, closure_var_denotes_captured_cell, distinct_activations_distinct_cells, store_monotone(+_items,_handlers), cells_only_grow, cells_keep_index, objects_keep_index, and for for-in loops forin_range_step_fresh_cell, forin_range_cells_distinct, forin_closure_reads_own_cell, forin_arr_step_shares_cell — all about Src/Eval.v; tie: generated programs with the same name bound at every binder kind in nested scopes, escaping and returned closures, counters shared between closures, closures created in loops: the real compiler must give the same outcome on the original, the uniquified and an injectively renamed variant, and equal to the evaluator, with heaps of 20000, 150, 220 and 400 cells; an evaluator-free family for constructs outside Src/Syntax.v (patterns, dimension names, comprehension qualifiers, for-in over slices, catch bodies, module lets): every lexically equivalent spelling must behave alike, closures made per iteration must see distinct cells, an iterable is unchanged by iteration",
         ref="DESIGN.md §5 C08",
-        note=TB + "; free-variable resolution inside the real compiler (gencode.c) has no theorem (closures are outside F3) and is tied only through the differential; the generator avoids the shape of the known finding late-shadow-after-closure (kept in corpus/C08)"),
+        note=TB + "; free-variable resolution inside the real compiler (gencode.c) is covered by a theorem only as far as Properties_C02c.v (F4, partial) goes and is otherwise tied through the differential; the generator avoids the shape of the known finding late-shadow-after-closure (kept in corpus/C08)"),
     "C09": dict(
         engine="E1 gc + E4 verifier",
         technique="Coq proof of heap-bookkeeping invariants and exact collection over all operation histories of a model of gc.c; root slots of the VM stack classified for all reachable states of verified code; op-history correspondence with the real gc.c + property oracle on the real heap; bounded-live and forced-schedule families on the real VM",
-        text="proof: Properties_C09.v (10) — gc_new_wf, gc_wf_step, gc_wf_history, alloc_hands_out_a_free_cell, alloc_oom_iff_full, cells_conserved, collect_total, collect_exact, run_exact, bounded_live_never_oom about coq/GC/GCModel.v; Properties_C09b.v — stack_slots_classified, root_slots (Verifier/Roots.v: in every reachable state of verified code the roots are exactly the value slots and the saved-environment slot of every frame header). Tie: generated histories executed on the model and on back/gc.c (every address, both lists, free chain, marks, objects compared after every op; heaps 2..300 and 65535..140000 cells) + an independent reachability oracle; at VM level 17 bounded-live loop forms (heap for N iterations must suffice for 10N) and every corpus/generated program under forced collection schedules; the slot kinds are compared with the real gc_stack tags by the lock-step",
+        text="proof: Properties_C09.v (10) — gc_new_wf, gc_wf_step, gc_wf_history, alloc_hands_out_a_free_cell, alloc_oom_iff_full, cells_conserved, collect_total, collect_exact, run_exact, bounded_live_never_oom about coq/GC/GCModel.v; Properties_C09b.v — stack_slots_classified, root_slots (Verifier/Roots.v: in every reachable state of verified code the roots are exactly the value slots and the saved-environment slot of every frame header). Tie: generated histories executed on the model and on back/gc.c (every address, both lists, free chain, marks, objects compared after every op; heaps 2..300 and 65535..140000 cells) + an independent reachability oracle; at VM level 17 bounded-live loop forms (heap for N iterations must suffice for 10N) and every corpus/generated program under forced collection schedules (same outcome; the stack extent and environment handed to each gc_run must equal sp+1 / gp at the next instruction boundary: GCROOTS oracle of harness/vm/bcdump.c); the slot kinds are compared with the real gc_stack tags by the lock-step",
         ref="DESIGN.md §5 C09",
         note=TB + "; not modelled: host recursion depth of gc_mark, malloc failure, OBJECT_UNKNOWN; one stated exemption of the tag comparison: the junk slot RETHROW leaves until CLEAR_STACK removes it"),
     "C10": dict(
         engine="E3 arith/index",
         technique="Coq proof by induction over literal expression trees that the model of front/constred.c agrees bit-for-bit with the run-time semantics written from front/emit.c + back/vmexec.c; model of front/enumred.c and of the enumerator index assignment as an equation system; three-leg correspondence (real reducer vs fold, real VM vs rt_eval, literal-vs-variable metamorphic pairs on the real code), operand-form and enum-declaration families",
-        text="proof: Properties_C10.v (19) — well_typed_trees_are_emitted, fold_agrees_with_runtime (every typed tree, all literal values), fold_literal_is_runtime_value, fold_total, fold_never_crashes, run_never_traps, regression statements for the repaired defects (long_mul, bool_neq, int_min_div, enum_min_div, enum_compare), efold_never_crashes, enumred_is_constred_on_int_trees, enum_index_is_runtime_value; one statement is false of the faithful model and stays a known finding: fold_div0_is_runtime_fault_partial (strict trees) with fold_div0_is_runtime_fault_refuted / cond_div0_is_rejected_but_runs (a zero divisor under && || ?: is rejected although never evaluated); enumred_agrees_with_runtime_partial (int/bool trees; the rest of enumred.c by correspondence). Properties_C10b.v (7, Arith/EnumIndex.v) — enum_index_terminates, _satisfies_its_initialiser, _is_the_unique_solution, _independent_of_declaration_order, enum_index_stable, cyclic_reference_reported_only_for_cycles, enumerator_above_a_cycle_gets_no_index. Tie: typing/opcode tables regenerated (table:* obligations); the folded literal read back from the dumped bytecode, the VM result from probe programs with operands in variables, exhaustive over operator x admitted type pairs, corner + random values, MIN/-1 in every div/mod cell; enum declaration sets against the extracted decl_indices",
+        text="proof: Properties_C10.v (19) — well_typed_trees_are_emitted, fold_agrees_with_runtime (every typed tree, all literal values), fold_literal_is_runtime_value, fold_total, fold_never_crashes, run_never_traps, regression statements for the repaired defects (long_mul, bool_neq, int_min_div, enum_min_div, enum_compare), efold_never_crashes, enumred_is_constred_on_int_trees, enum_index_is_runtime_value; one statement is false of the faithful model and stays a known finding: fold_div0_is_runtime_fault_partial (strict trees) with fold_div0_is_runtime_fault_refuted / cond_div0_is_rejected_but_runs (a zero divisor under && || ?: is rejected although never evaluated); enumred_agrees_with_runtime_partial (int/bool trees; the rest of enumred.c by correspondence). Properties_C10b.v (7, Arith/EnumIndex.v) — enum_index_terminates, _satisfies_its_initialiser, _is_the_unique_solution, _independent_of_declaration_order, enum_index_stable, cyclic_reference_reported_only_for_cycles, enumerator_above_a_cycle_gets_no_index. Tie: typing/opcode tables regenerated (table:* obligations); the folded literal read back from the dumped bytecode, the VM result from probe programs with operands in variables, exhaustive over operator x admitted type pairs, corner + random values, MIN/-1 in every div/mod cell; enum declaration sets against the extracted decl_indices; string folds (s + s, s + char, s + number, comparisons, length, index) with literal vs variable operands",
         ref="DESIGN.md §5 C10",
         note=TB + "; excluded as C UB and counted in the evidence: out-of-range float->int, shift counts >= width"),
     "C11": dict(
         engine="E3 arith/index",
         technique="Coq proofs over regenerated finite tables (promotion / assignment conversion / opcode selection: forallb by vm_compute lifted with forallb_forall) and over all values (wrap ring homomorphism, truncating division incl. MIN / -1, two's-complement bit operations, exact int<->long and float<->double conversions on SpecFloat); value probes on the real VM in all operand forms compared by bit pattern",
-        text="proof: Properties_C11.v (17, no _partial/_refuted left) — binary_result_is_join, binary_table_covers_numeric_pairs, assignment_converts_to_left, opcode_matches_type, unary_opcode_matches_type, accepted_cells_are_emitted over tables regenerated from the tree's typechecker+emitter on every run (exhaustive: 1152 binary + 24 unary + 64 assignment cells), and wrap_ring_hom, arith_exact_when_fits, div_never_traps, div_overflow_wraps, div_truncates, div_by_zero_faults, compare_total_int, bitops_are_two_complement, shift_in_range, conv_int_long_exact, conv_float_double_exact for all operand values; tie: every (operator, type pair, value pair) as var-var, lit-lit, lit-var, var-lit and enum-initialiser form, assignments and concatenations, on the real VM; results compared bit-for-bit with the extracted operations (correspondence) and with an independent python reference (property oracle)",
+        text="proof: Properties_C11.v (17, no _partial/_refuted left) — binary_result_is_join, binary_table_covers_numeric_pairs, assignment_converts_to_left, opcode_matches_type, unary_opcode_matches_type, accepted_cells_are_emitted over tables regenerated from the tree's typechecker+emitter on every run (exhaustive: 1152 binary + 24 unary + 64 assignment cells), and wrap_ring_hom, arith_exact_when_fits, div_never_traps, div_overflow_wraps, div_truncates, div_by_zero_faults, compare_total_int, bitops_are_two_complement, shift_in_range, conv_int_long_exact, conv_float_double_exact for all operand values; tie: every (operator, type pair, value pair) as var-var, lit-lit, lit-var, var-lit and enum-initialiser form, assignments and concatenations, and the array forms of the operators (element by element against the scalar operators), on the real VM; results compared bit-for-bit with the extracted operations (correspondence) and with an independent python reference (property oracle)",
         ref="DESIGN.md §5 C11",
         note=TB + "; IEEE conformance of Coq.Floats.SpecFloat is Flocq's theorem (cited, not re-proved, not imported); number formatting (Arith/Fmt.v) has no theorem and is tied by correspondence only; C UB excluded and counted: out-of-range float->int, shift counts >= width"),
     "C12": dict(
         engine="E3 arith/index",
         technique="Coq proofs about models of object_arr_dim_mult/fits/addr, vm_get_slice_range, MK_ARRAY and the deref/slice/string/array-arithmetic handlers; exhaustive small-extent + boundary + random direct-call correspondence and probe programs under ASan",
-        text="proof: Properties_C12.v (25, no _partial/_refuted left) — dim_addr_row_major, row_major_injective, dim_addr_oob, array_deref_spec, dim_fits_spec, mk_array_spec, mk_array_deref_spec (every array the VM creates), slice_range_denotes, slice_range_index_out, slice_range_results, compose_ranges_denotes, range_deref_spec, slice_deref_spec, slice_aliases, mk_array_slice_deref_spec, slice_slice_assoc (all int bounds and indices, no overflow hypothesis since fix acecad0), string_index_guard, string_slice_exact, shape_conformance, arith_result_indexing, and *_regression theorems on the witnesses of the former overflow refutations (fixed by acecad0, 1f9996a); tie: direct calls into the tree's object.c/vmexec.c/exctab.c (exhaustive for <=3 dims, extents <=4, all range quadruples in [-1,5]^4, ranges next to INT_MAX/INT_MIN, random 32-bit values) and handler-level probe programs judged by a python oracle",
+        text="proof: Properties_C12.v (34, no _partial/_refuted left) — dim_addr_row_major, row_major_injective, dim_addr_oob, array_deref_spec, dim_fits_spec, mk_array_spec, mk_array_deref_spec (every array the VM creates), slice_range_denotes, slice_range_index_out, slice_range_results, compose_ranges_denotes, range_deref_spec, slice_deref_spec, slice_aliases, mk_array_slice_deref_spec, slice_slice_assoc (all int bounds and indices, no overflow hypothesis since fix acecad0), string_index_guard, string_slice_exact, shape_conformance, arith_result_indexing, the flat layout of range vectors (unflatten_flatten, vec_layout, slice_range_vec_spec, range_deref_vec_spec, slice_deref_vec_spec, slice_slice_vec_spec, slice_dim_name_spec), and *_regression theorems on the witnesses of the former overflow refutations (fixed by acecad0, 1f9996a); tie: direct calls into the tree's object.c/vmexec.c/exctab.c (exhaustive for <=3 dims, extents <=4, all range quadruples in [-1,5]^4, ranges next to INT_MAX/INT_MIN, random 32-bit values) and handler-level probe programs (incl. 2-D / 3-D slice-of-slice and range-of-range compositions in every direction combination, bound names of slice and range parameters, empty strings) judged by a python oracle",
         ref="DESIGN.md §5 C12",
         note=TB + "; the theorems about object_arr_dim_mult/addr themselves keep the hypothesis product < 2^32 (that function still wraps; the guard sits in MK_ARRAY and the matrix product); handler-level behaviour is tied through probe programs, not by a model of the whole VM"),
     "C13": dict(
         engine="E4 verifier + E5 source",
         technique="Coq proofs: a tail transfer keeps the frame (P, F) and the stack is bounded by (non-tail calls + 1) x (max certified frame size + 5) in every run of verified code; model of front/tailrec.c marks only (and all direct) tail-position self calls; generated tail-recursive family at N and 10N with peak-sp monitor (hook H1) and code-vs-model marking comparison",
-        text="proof: Properties_C13.v (9) — tail_call_keeps_frame, stack_bounded_by_open_calls, stack_bounded_by_nontail_calls, tail_call_constant_stack, tail_call_constant_stack_open (corollaries of verify_depth: any number of tail transfers, peak independent of the iteration count), tailrec_marks_characterised, tailrec_marks_only_tail_positions, tailrec_marks_all_direct_tail_self_calls, tailrec_ignores_catch_clauses for coq/Src/Tailrec.v; tie: generated shapes (?:, if/else, blocks with locals, parentheses, match arms, if-let, |>, unary operators around the call, nested functions with captures, let/var-bound function expressions, catch clauses, units with a use clause / inside a module, non-tail controls) run at N=5000/50000 (thorough 30000/300000) on a 200-slot stack: equal peak sp and frame count, peak below the verifier's bound, result equal to the python reference and the while loop; tail sites in the dumped code equal the model's marking",
+        text="proof: Properties_C13.v (9) — tail_call_keeps_frame, stack_bounded_by_open_calls, stack_bounded_by_nontail_calls, tail_call_constant_stack, tail_call_constant_stack_open (corollaries of verify_depth: any number of tail transfers, peak independent of the iteration count), tailrec_marks_characterised, tailrec_marks_only_tail_positions, tailrec_marks_all_direct_tail_self_calls, tailrec_ignores_catch_clauses for coq/Src/Tailrec.v; tie: generated shapes (?:, if/else, blocks with locals, parentheses, match arms, if-let, |>, unary operators around the call, nested functions with captures, let/var-bound function expressions, catch clauses, five unit layouts: plain / use clause / inside a module / that module imported first or last of two uses, non-tail controls) run at N=5000/50000 (thorough 30000/300000) on a 200-slot stack: equal peak sp and frame count, peak below the verifier's bound, result equal to the python reference and the while loop; tail sites in the dumped code equal the model's marking",
         ref="DESIGN.md §5 C13",
         note=TB + "; result equality with the loop is a theorem only for the F3 fragment of C02b (self tail calls of top-level functions)"),
     "C14": dict(
@@ -122,19 +122,19 @@ CHECKS = {
     "C15": dict(
         engine="E2 api + E7 ffi/hash",
         technique="Coq proofs over all API histories of an abstract embedding-API machine (stack neutrality, repeatability, VM independence; instruction-level VM universally quantified) and of a process-state machine (FP status word, scanner string buffer, working directory) under measured reinitialisation policies, proved necessary; function-table refinement; API-history correspondence and fresh-process replay oracles on the real library under ASan",
-        text="proof for the modelled state: Properties_C15.v (13) — execute_stack_neutral, execute_stack_neutral_call, execute_uses_no_more_stack_than_first, reachable_is_primed, execute_repeatable, execute_outcome_function_of_globals, vms_independent, vms_commute over every finite history (execute_stack_neutral_partial / _refuted / _after_error_refuted describe the pinned policies fixed by 1f8f62e, a221d79); Properties_C15b.v (10) — process_history_as_in_fresh_process under `reinitialises`, process_reinit_necessary, fp_* and scan_* lemmas; Properties_C15c.v (5) — working_directory_invariant_over_history, compiles_resolve_files_as_in_fresh_process, working_directory_restore_necessary, process3_history_as_in_fresh_process under `cwd_restoring`; Hash/FuncTabStatements.v (obligations) — functab_add_sequences, functab_distinct_refines_map. The policies (pop at HALT / restore on error; fe*except masks, opening-quote rule, the two chdir(cwd)) are measured on the tree on every run. The remaining compile-time globals (flex start condition, use stack, line_no, utils_file_name) have no Gallina model and are decided by correspondence only: the k-th compile/execute of a random history must equal a fresh process's (code/exctab/strtab/functab digest, diagnostics, results, sp, cwd), incl. residue, never-path and ffi-failure-then-valid families",
+        text="proof for the modelled state: Properties_C15.v (13) — execute_stack_neutral, execute_stack_neutral_call, execute_uses_no_more_stack_than_first, reachable_is_primed, execute_repeatable, execute_outcome_function_of_globals, vms_independent, vms_commute over every finite history (execute_stack_neutral_partial / _refuted / _after_error_refuted describe the pinned policies fixed by 1f8f62e, a221d79); Properties_C15b.v (10) — process_history_as_in_fresh_process under `reinitialises`, process_reinit_necessary, fp_* and scan_* lemmas; Properties_C15c.v (5) — working_directory_invariant_over_history, compiles_resolve_files_as_in_fresh_process, working_directory_restore_necessary, process3_history_as_in_fresh_process under `cwd_restoring`; Hash/FuncTabStatements.v (obligations) — functab_add_sequences, functab_distinct_refines_map. The policies (pop at HALT / restore on error; fe*except masks, opening-quote rule, the two chdir(cwd)) are measured on the tree on every run. The remaining compile-time globals (flex start condition, use stack, line_no, utils_file_name) have no Gallina model and are decided by correspondence only: the k-th compile/execute of a random history must equal a fresh process's (code/exctab/strtab/functab digest, diagnostics, results, sp, cwd), incl. residue, never-path, ffi-failure-then-valid, reprepare and failfirst families",
         ref="DESIGN.md §5 C15",
         note=TB + "; the instruction-level run of the entry stub is universally quantified in the API theorems: its frame discipline is C07's theorem; the file system is a parameter of the cwd theorems"),
     "C16": dict(
         engine="E6 front/mem + E1 gc",
         technique="Coq proofs: an executable allocation-trace monitor is sound and complete for balanced / no double free / no free of unknown block, and exact about leaks; gc_delete frees each object exactly once (collector model); malloc-event traces of compile->run->dispose from a --wrap shim judged by the extracted monitor, LeakSanitizer as second opinion",
-        text="proof (partial by nature): Properties_C16.v (4) — monitor_sound_complete, monitor_leak_exact, monitor_reject_sound, gc_delete_frees_each_object_once; which source constructs reach which %destructor / *_delete cannot be modelled and is observed: every allocation event of libnev between program_new and the return of program_delete on valid, syntactically broken (grammar-driven, ~1.16x10^4), ill-typed, reducer-rejected and missing-module sources, enum initialisers, an FFI family, entry functions run with host-owned string / string-array arguments (re-prepared, several runs and VMs), all run outcomes, and a heap-size sweep around each probe's need",
+        text="proof (partial by nature): Properties_C16.v (4) — monitor_sound_complete, monitor_leak_exact, monitor_reject_sound, gc_delete_frees_each_object_once; Properties_C16b.v (3, Mem/GcDelete*.v with the loop bounds of gc_delete as parameters, read from the tree on every run) — gc_delete_bounds_freed, gc_delete_bounds_complete, gc_delete_cut_leaks; which source constructs reach which %destructor / *_delete cannot be modelled and is observed: every allocation event of libnev between program_new and the return of program_delete on valid, syntactically broken (grammar-driven, ~1.16x10^4), ill-typed, reducer-rejected and missing-module sources, enum initialisers, an FFI family, entry functions run with host-owned string / string-array arguments (re-prepared, several runs and VMs), all run outcomes, one probe per raise site of the VM x handler arrangement, one per built-in function and string-producing operator path, owned tokens at every grammar error position, and a heap-size sweep around each probe's need",
         ref="DESIGN.md §5 C16, §11",
         note=TB + "; runs ending in exit() inside libnev (stack too large, out of memory), signals and time-outs are counted but not judged for leaks"),
     "C17": dict(
         engine="E7 ffi/hash",
         technique="Coq proofs about a model of the record layout/marshalling code of back/vmffi.c (System V struct layout, marshal/unmarshal round-trip, descriptor stream, nil => ffi_fail decision) and refinement of the library handle cache back/dlcache.c to an association map for every hash function; layout compared exhaustively with gcc's offsetof/sizeof; generated C callees, many-argument and call-sequence families, dlcache operation histories under ASan",
-        text="proof (partial by nature): Properties_C17.v (11) — layout_is_c_layout, ffi_align_is_round_up, marshal_within_bounds, marshal_unmarshal_roundtrip(_nested), marshal_ret_iff_nil, descriptor_stream_wellformed, sizeof_bound, nil_arg_is_ffi_fail (nil_arg_is_ffi_fail_partial / _refuted describe the assigning variant of the pinned tree, fixed by ab7c716) about coq/FFI/Layout.v; Properties_C17b.v (14) — dlcache_refines_map, dlcache_step_total, dlcache_handle_stable, dlcache_never_added_not_found, dlcache_resize_preserves_map ... (dlcache_dup_first_wins_refuted, dlcache_new_size0_refuted: outside what get_handle can reach / outside the precondition). The platform ABI / libffi / dlopen part cannot be modelled and is observed: layout vs gcc over ~10^4 shapes (exhaustive set), generated signatures (arities 0..8 densely, every arity 9..20/24 x by-value record of every size class x position, structs 1-40 bytes, register and memory classes, nil placements, missing library/symbol) must deliver every argument and result exactly; calls in sequence over several programs, VMs and libraries whose names surround the reserved word `host`; real dlcache functions with fake handles compared with the model after every operation",
+        text="proof (partial by nature): Properties_C17.v (11) — layout_is_c_layout, ffi_align_is_round_up, marshal_within_bounds, marshal_unmarshal_roundtrip(_nested), marshal_ret_iff_nil, descriptor_stream_wellformed, sizeof_bound, nil_arg_is_ffi_fail (nil_arg_is_ffi_fail_partial / _refuted describe the assigning variant of the pinned tree, fixed by ab7c716) about coq/FFI/Layout.v; Properties_C17b.v (14) — dlcache_refines_map, dlcache_step_total, dlcache_handle_stable, dlcache_never_added_not_found, dlcache_resize_preserves_map ... (dlcache_dup_first_wins_refuted, dlcache_new_size0_refuted: outside what get_handle can reach / outside the precondition). The platform ABI / libffi / dlopen part cannot be modelled and is observed: layout vs gcc over ~10^4 shapes (exhaustive set), generated signatures (arities 0..8 densely, every arity 9..20/24 x by-value record of every size class x position, structs 1-40 bytes, records crossing 64 KiB and 128 KiB, every legal declaration order, register and memory classes, nil placements, missing library/symbol) must deliver every argument and result exactly; calls in sequence over several programs, VMs and libraries whose names surround the reserved word `host`; real dlcache functions with fake handles compared with the model after every operation",
         ref="DESIGN.md §5 C17",
         note=TB + "; register/memory classification, libffi, dlopen/dlsym and ownership of the argument buffers are observed, not proved"),
 }
